@@ -88,6 +88,11 @@ func qciRecord(out io.Writer, args []string) error {
 		stride = (len(grid) + *rf.n - 1) / *rf.n
 	}
 	pos := -1
+	type pick struct {
+		idx int
+		d   dist
+	}
+	var mine []pick
 	for idx, d := range grid {
 		// -n limits how many distributions of the grid are used (spread evenly, rotating with the seed);
 		// shards split the selected ones
@@ -102,6 +107,20 @@ func qciRecord(out io.Writer, args []string) error {
 		} else if pos%*rf.of != *rf.shard {
 			continue
 		}
+		mine = append(mine, pick{idx, d})
+	}
+	// every other shard walks its distributions from large n to small (and the remaining ones in a seeded shuffle): an
+	// implementation that keeps tables between calls sees larger sizes before smaller ones
+	switch *rf.shard % 3 {
+	case 1:
+		for i, j := 0, len(mine)-1; i < j; i, j = i+1, j-1 {
+			mine[i], mine[j] = mine[j], mine[i]
+		}
+	case 2:
+		rand.New(rand.NewSource(*rf.seed+int64(*rf.shard))).Shuffle(len(mine), func(i, j int) { mine[i], mine[j] = mine[j], mine[i] })
+	}
+	for _, pk := range mine {
+		idx, d := pk.idx, pk.d
 		rng := rand.New(rand.NewSource(*rf.seed*1000003 + int64(idx)))
 		q := float64(d.a) / float64(d.b)
 		ev := base
